@@ -24,3 +24,12 @@ Proof. exact eval_model_record_unchanged_or_nil. Qed.
 (* the hypotheses are satisfiable *)
 Theorem C14_instance : no_redact_expr ex_query = true /\ prepared_expr ex_query = true.
 Proof. exact (proj2 ex_shape). Qed.
+
+(* the Precompute invariant used above is a theorem about the Precompute model: every tree it returns
+   satisfies prepared_expr (and keeps shape_expr) *)
+Require Import V.Kfl.KflPre V.Kfl.KflPreProofs.
+Theorem C14_precompute_establishes_prepared :
+  forall parse_float re_match parse_time b64dec parse_json xml_first redact_apply parse_path re_compiles now_ns uint64_of e e' p err,
+    precompute_model parse_float re_match parse_time b64dec parse_json xml_first redact_apply parse_path re_compiles now_ns uint64_of e = Ok (e', p, err) ->
+    prepared_expr e' = true /\ (shape_expr e = true -> shape_expr e' = true).
+Proof. exact precompute_establishes_invariants. Qed.
